@@ -148,10 +148,11 @@ func (q *UdpTaskQueue) convoy() {
 	defer func() {
 		if r := recover(); r != nil {
 			if q.p != nil {
-				// Log or handle panic as needed. For now, ensure queue is removed from pool
-				// so a new one can be created if traffic continues.
-				q.p.queues.Delete(q.key)
-				q.p.queueChPool.Put(q.ch) // return channel to pool to prevent leak
+				// Log or handle panic as needed. For now, ensure this queue (and only this
+				// queue) is removed from pool so a new one can be created if traffic continues.
+				// The channel is not returned to the pool: it may still hold tasks of this
+				// flow, which the next flow to take it from the pool would run as its own.
+				q.p.tryDeleteQueue(q.key, q)
 			}
 		}
 	}()
